@@ -60,9 +60,21 @@ Definition w_load_entities (d : edump * list nat) (s : W) : option W :=
            end
        end.
 
+(** Executable form of the two hypotheses the world-level theorems take from the storage
+    invariant (every listed ID names a pool slot holding that ID; no ID listed twice); proved
+    sound in DumpLoadWProofs and evaluated on the source state of every correspondence case. *)
+Fixpoint nodupb (l : list nat) : bool :=
+  match l with [] => true | x :: r => (negb (existsb (Nat.eqb x) r) && nodupb r)%bool end.
+
+Definition alive_okb (s : W) : bool :=
+  (forallb (fun i => match nth_error (pe (w_pool s)) i with
+                     | Some e => Nat.eqb (fst e) i
+                     | None => false end) (alive_ids s)
+   && nodupb (alive_ids s))%bool.
+
 (** ** The correspondence case: a script (as for [run_script]); the dump of its final state is
     loaded into a new world of the same configuration, or into a world with a history of its
-    own that ends with Reset; output = internal dump of that world. *)
+    own that ends with Reset; output = [alive_okb] of the source state (1/0) followed by the internal dump of that world. *)
 Fixpoint final_state (debug : bool) (s : W) (lines : list (list Z)) : W :=
   match lines with
   | [] => s
@@ -80,7 +92,7 @@ Definition dumpload_world (lines : list (list Z)) : list Z :=
           let tgt := final_state (sc_debug c) (init_world c) (firstn kk ops) in
           let s := final_state (sc_debug c) (init_world c) (skipn kk ops) in
           match w_load_entities (w_dump_entities s) tgt with
-          | Some s' => dump s'
+          | Some s' => (if alive_okb s then 1%Z else 0%Z) :: dump s'
           | None => [(-3)%Z]
           end
       | None => [(-2)%Z]
